@@ -30,6 +30,9 @@ type cbScenario struct {
 	Canary   string
 	Exp      time.Duration
 	EntityID string // entity ID configured through the metadata endpoint's URL ("" = derived from the issuer)
+	// ForeignParams: the callback carries, besides the id, parameters named like the fields of the stored request
+	// (RelayState, consumer URL, binding ...) with values of its own - the reply is made from the stored request
+	ForeignParams bool
 }
 
 // timeLayouts are the WithCustomTimeFormat variants ("" = default).
@@ -62,6 +65,7 @@ func randScenario(rng *rand.Rand, canary string, hostile bool) *cbScenario {
 	if rng.Intn(6) == 0 {
 		sc.S.RelayState = ""
 	}
+	sc.ForeignParams = rng.Intn(3) == 0
 	if hostile {
 		switch rng.Intn(6) {
 		case 0:
@@ -148,7 +152,12 @@ func (sc *cbScenario) layout() string {
 
 // callback issues the callback with the id in the query.
 func (sc *cbScenario) callback(e *env.Env) *env.Call {
-	return e.Do(env.Req{Method: "GET", Path: env.PathLogin, Query: "id=" + url.QueryEscape(sc.S.ID), Host: sc.Host})
+	q := "id=" + url.QueryEscape(sc.S.ID)
+	if sc.ForeignParams {
+		q += "&RelayState=foreign-relay-state&AssertionConsumerServiceURL=" + url.QueryEscape("https://evil-cb.example/acs") + "&ProtocolBinding=" + url.QueryEscape(spsim.BindRedirect) +
+			"&Destination=" + url.QueryEscape("https://evil-cb.example/dest") + "&InResponseTo=foreign-id&userID=foreign-user&applicationID=foreign-app"
+	}
+	return e.Do(env.Req{Method: "GET", Path: env.PathLogin, Query: q, Host: sc.Host})
 }
 
 // ---------- global freshness of IDs ----------
